@@ -7,5 +7,4 @@ var NotApplicable = [][2]string{
 	{"C12", "The Defs/Uses/Types invariants relate object identities and positions created inside gogen at run time; no rule over cl/recorder.go bounds them without executing the type checker."},
 	{"C20", "Idempotence of the printer depends on line/column arithmetic over arbitrary inputs (layout decisions based on source positions); not a shape-of-code fact."},
 	{"C21", "Comment preservation depends on position comparisons between comments and tokens at print time (intersperseComments); it quantifies over runtime positions."},
-	{"C29", "The matcher's combination semantics (consumed counts, result tree shapes) are runtime values and the reference is README prose, not a table a static rule could compare against."},
 }
